@@ -48,8 +48,9 @@ PairAlphabet ==
   \cup (IF Rich THEN {W("blank"), Rep("cm"), Rep("nd"), W("dict")} ELSE {})
 (* every name of the pair universe is also explored as a name              *)
 NameAlphabet ==
-  ClassReps \cup PairAlphabet \cup {W("dict"), W("init")}
-  \cup (IF Rich THEN {W("None"), At("sym", ","), At("hsym", "plusminus"), At("cm", "middot")}
+  ClassReps \cup PairAlphabet
+  \cup (IF Rich THEN {W("dict"), W("init"), W("None"), At("sym", ","), At("hsym", "plusminus"),
+                      At("cm", "middot")}
         ELSE {})
 
 (* names longer than MaxLen that reach the reserved words                  *)
@@ -157,6 +158,7 @@ AddSlot ==
   /\ vRoot' \in (IF vSlots = <<>> THEN RootTitles ELSE {vRoot})
   /\ \E sl \in SlotChoices :
         /\ sl.pos = "addl" => \A j \in 1..Len(vSlots) : vSlots[j].pos # "addl"
+        /\ vSlots = <<>> => sl.shape = 1          \* the two shapes are symmetric
         /\ vSlots' = Append(vSlots, sl)
   /\ UNCHANGED <<vName, vSib, vTitle, vUse>>
 
